@@ -349,6 +349,7 @@ type BlockOpts struct {
 	Absent    map[string]bool // validator names that do not vote (BlockIDFlagAbsent)
 	TamperInj func(inj []byte) []byte // mutate Txs[0] between Prepare and Process (C17)
 	SkipProcessCheck bool
+	DoubleSign map[string]bool // validator names reported to the application as having signed two blocks at the previous height (evidence)
 }
 
 // NextBlock produces one block.  A FinalizeBlock error / panic is recorded in BlockResult.Err and c.Halted.
@@ -499,7 +500,20 @@ func (c *Chain) NextBlock(o BlockOpts) (br BlockResult) {
 				br.Err = fmt.Sprint("panic:", r)
 			}
 		}()
-		fr, err := a.FinalizeBlock(&abci.RequestFinalizeBlock{Height: h, Time: t, Txs: txs, DecidedLastCommit: lastCommit, ProposerAddress: proposer})
+		var mis []abci.Misbehavior
+		if len(o.DoubleSign) > 0 {
+			var tot int64
+			for _, addr := range setAddrs {
+				tot += c.curSet[addr]
+			}
+			for _, addr := range setAddrs {
+				if v := c.valByCons(addr); v != nil && o.DoubleSign[v.Acct.Name] {
+					mis = append(mis, abci.Misbehavior{Type: abci.MisbehaviorType_DUPLICATE_VOTE, Validator: abci.Validator{Address: v.ConsAddr, Power: c.curSet[addr]},
+						Height: h - 1, Time: c.Time, TotalVotingPower: tot})
+				}
+			}
+		}
+		fr, err := a.FinalizeBlock(&abci.RequestFinalizeBlock{Height: h, Time: t, Txs: txs, DecidedLastCommit: lastCommit, ProposerAddress: proposer, Misbehavior: mis})
 		if err != nil {
 			br.Err = "err:" + err.Error()
 			return
